@@ -230,15 +230,16 @@ def run(ctx):
                 pf = rng.choice(prefix_names)
                 check(x, pf, y, None, rng.choice(fixed))
                 check(x, None, y, pf, rng.choice(fixed))
-            if k % 5 == 4:
-                # a declaration in between (it also empties the library's memo tables)
+            if k % 3 == 2:
+                # a declaration in between (it also empties the library's memo tables): a user's own scale anchored on
+                # each of the four stock units in turn, now and then a plain new degree
                 n = f"zqc10s{ctx.shard}r{rnd}k{k}"
+                anchor = SCALES[(k // 3) % 4]
                 try:
-                    if rng.random() < 0.5:
-                        m.Unit.define(m.Temperature, n, n).equals(rng.choice([2, 0.5]) * U["kelvin"])
-                    else:
-                        m.Temperature.scale(rng.choice([100, 255.375]) * U["kelvin"], n, n)
-                    ctx.count("history/declarations_in_between")
+                    if rng.random() < 0.2:
+                        m.Unit.define(m.Temperature, n + "d", n + "d").equals(rng.choice([2, 0.5]) * U[anchor])
+                    m.Temperature.scale(rng.choice([100, 255.375, 77.355, 32]) * U[anchor], n, n)
+                    ctx.count(f"history/scales_declared_in_between/on_{anchor}")
                 except Exception as ex:
                     ctx.count(f"history/declaration_raised/{type(ex).__name__}")
         for a, b in pairs:
